@@ -60,7 +60,7 @@ Definition run10 (s : list N) : list N :=
   end.
 
 Definition tokens_ok (ops : list pop) : bool :=
-  forallb (fun o => match o with OSetToken t => len t <=? 8 | _ => true end) ops.
+  forallb (fun o => match o with OSetToken t | OResetHeader t => len t <=? 8 | _ => true end) ops.
 
 (* C01 on an observation: the state denotes the specified message, the bytes are its wire
    image, and decoding them gives back a packet with exactly that message's fields *)
